@@ -51,7 +51,7 @@ def lex_structure(s, pre=None):
     saved = (parsetree.ast, lexer.adjust_whitespace, lexer.parsetree)
     parsetree.ast = types.SimpleNamespace(PythonCode=StubCode, ArgumentList=StubCode, PythonFragment=StubCode,
                                           FunctionDecl=StubCode, FunctionArgs=StubCode)
-    lexer.adjust_whitespace = lambda t: t
+    # adjust_whitespace runs for real (as in the symbolic run)
     ns = types.SimpleNamespace(**{k: v for k, v in vars(parsetree).items() if not k.startswith("__")})
     ns.Tag = StubTag
     lexer.parsetree = ns
